@@ -356,7 +356,9 @@ def show(o):
         # the predicted Form of a deferred slice against what was generated; a VirtualArray inside the generated array
         # means the prediction simplified nesting that the array could not (it cannot see through the VirtualArray)
         flag = "form_mismatch"
-        if "VirtualArray" in o[2].split("but generated", 1)[-1]:
+        if "VirtualArray" in o[2]:
+            # in the generated Form: the prediction simplified what the array could not; in the expected Form: it was
+            # inferred from an earlier generation in which an inner VirtualArray was not yet materialised
             flag = "form_mismatch:generated_contains_virtual"
     return [o[0], o[1], o[2][:200], flag]
 
